@@ -188,7 +188,8 @@ def test_str_methods(n=200, seed=3):
                 s.removeprefix(sep), s.removesuffix(sep), s.ljust(7, "."), s.rjust(7), s.center(8, "*"), s.center(7, "*"),
                 s.find(sep), s.rfind(sep), s.startswith(sep), s.endswith(sep), s.strip("="), s.lstrip("a"), s.split(sep),
                 f"{s:<6}|", f"{s:>{k + 4}}|", f"{s:*^7}|", f"{s:.2}|", f"{s!r:>9}|",
-                "%-*s|%4s|%-3d|%%" % (k + 3, s, sep, k), "%*s|" % (k - 4, s), "%-6s=%s" % (s, sep))
+                "%-*s|%4s|%-3d|%%" % (k + 3, s, sep, k), "%*s|" % (k - 4, s), "%-6s=%s" % (s, sep),
+                s.count(sep, k), s.count(sep, 1, 4), s.count("", k + 1, 3), s.find(sep, k + 1), s.rfind(sep, 0, 3))
     rnd = random.Random(seed)
     bad = 0
     norm = lambda x: tuple(tuple(y) if isinstance(y, (list, tuple)) else y for y in x)
